@@ -372,9 +372,14 @@ func (s *state) walkChild(node parse.Node) error {
 		}
 	case *parse.UseNode:
 		return s.walkUseNode(node)
+	case *parse.MacroNode, *parse.ImportNode, *parse.FromNode:
+		// Macros defined or imported at the top level of an extending template
+		// are available to the blocks of that template.
+		return s.walk(node)
 	default:
-		// No need to handle other nodes. This function only populates blocks from a
-		// referenced template (in a use statement) and does not actually execute anything.
+		// No need to handle other nodes. Apart from the above, this function only
+		// populates blocks from a referenced template (in a use statement) and
+		// does not actually execute anything.
 	}
 	return nil
 }
